@@ -55,6 +55,16 @@ func verifOgrekDecodeHook(r *bufio.Reader) (interface{}, error) {
 			return e.value, e.err
 		}
 	}
+	// og-rek on damaged input (read off its source): nothing at all -> io.EOF, a proper prefix of a
+	// pickle -> io.ErrUnexpectedEOF; anything else is some decoding error
+	if len(got) == 0 {
+		return nil, io.EOF
+	}
+	for _, e := range verifPickleTable {
+		if len(got) < len(e.payload) && bytes.Equal(got, e.payload[:len(got)]) {
+			return nil, io.ErrUnexpectedEOF
+		}
+	}
 	return nil, verifErrNotAPickle
 }
 
@@ -407,14 +417,19 @@ func VerifC13Format() {
 // protocol, og-rek type *big.Int). The property lists long values among the valid datapoints.
 func VerifC13LongValue() {
 	name := verifSymStr("name", 1)
-	items := []interface{}{ogorek.Tuple{name, ogorek.Tuple{int64(1500000000), verifBigInt()}}}
+	var value interface{} = verifBigInt()
+	want := "18446744073709551617"
+	if verifChoice("control", 2) == 1 { // control: the same item with an int64 value
+		value, want = int64(2147483647), "2147483647"
+	}
+	items := []interface{}{ogorek.Tuple{name, ogorek.Tuple{int64(1500000000), value}}}
 	payload := verifPickleList(items, 2)
 	verifPickleRegister(payload, items, nil)
 	d := &verifCapDisp{}
 	err := verifRunPickle(bytes.NewReader(verifFrame(uint32(len(payload)), payload)), d)
 	verifAssert(err == nil, "frame-of-items-is-no-connection-error")
 	verifAssert(d.invalid == 0, "long-value-not-counted-invalid")
-	verifAssert(verifLinesEqual(d.copies, []string{name + " 18446744073709551617 1500000000"}), "long-value-dispatched-via-%d")
+	verifAssert(verifLinesEqual(d.copies, []string{name + " " + want + " 1500000000"}), "long-value-dispatched-via-%d")
 	verifCover("end")
 }
 
@@ -460,6 +475,14 @@ func verifPrefixAccepted(t []byte) bool {
 
 const verifMaxPickle = 500 * 1024 * 1024
 
+// verifKindFrom chooses one of the digits of set (default def).
+func verifKindFrom(set, def, name string) int {
+	if set == "" {
+		set = def
+	}
+	return int(set[verifChoice(name, len(set))] - '0')
+}
+
 // VerifC13Framing: 1..2 frames per connection through the segmenting reader. Good frames carry a
 // symbolic 4-byte length (constrained to the payload length); the last frame may be malformed:
 // over-long length, bad protocol prefix (any length), short payload, truncated length, empty frame.
@@ -472,9 +495,9 @@ func VerifC13Framing() {
 	for i := 0; i < nf; i++ {
 		kind := 0
 		if i == nf-1 {
-			kind = verifChoice("last-kind", 7)
+			kind = verifKindFrom(verifParam("last"), "01234567", "last-kind")
 		} else {
-			kind = verifChoice("kind", 2)
+			kind = verifKindFrom(verifParam("first"), "01", "kind")
 		}
 		switch kind {
 		case 0, 5: // i+1 integer items with symbolic content: i+1 invalid counts; kind 5: short payload
@@ -498,7 +521,13 @@ func VerifC13Framing() {
 		case 1: // one valid item with a symbolic name, in any of the accepted layouts
 			name := verifString("name", 1)
 			items := []interface{}{ogorek.Tuple{name, ogorek.Tuple{int64(1), int64(2)}}}
-			payload := verifPickleList(items, verifChoice("style", 4))
+			style := 0
+			if i == nf-1 {
+				style = verifKindFrom(verifParam("styles"), "0123", "style")
+			} else {
+				style = verifKindFrom(verifParam("first-styles"), "0123", "style")
+			}
+			payload := verifPickleList(items, style)
 			verifPickleRegister(payload, items, nil)
 			hdr := verifUint32("hdr")
 			verifAssume(hdr == uint32(len(payload)))
@@ -521,8 +550,13 @@ func VerifC13Framing() {
 			stream = append(stream, verifBytes("hdrpart", 1+verifChoice("hdrlen", 3))...)
 			wantErr = true
 		case 6: // empty frame followed by a byte that passes the prefix check: the decoder gets no bytes (og-rek: io.EOF)
-			verifPickleRegister(nil, nil, io.EOF)
 			stream = append(stream, 0, 0, 0, 0, ']')
+			wantErr = true
+		case 7: // a well-formed list pickle in a layout checkProtocol does not accept (MARK items LIST STOP)
+			items := []interface{}{int64(verifByte("int"))}
+			payload := append(verifPickleEnc([]byte{'('}, items[0]), 'l', '.')
+			verifPickleRegister(payload, items, nil)
+			stream = append(stream, verifFrame(uint32(len(payload)), payload)...)
 			wantErr = true
 		}
 	}
@@ -566,8 +600,16 @@ func VerifC13TruncatedPickle() {
 	name := verifString("name", 1)
 	items := []interface{}{ogorek.Tuple{name, ogorek.Tuple{int64(1), int64(2)}}}
 	payload := verifPickleList(items, 0)
-	verifPickleRegister(payload[:len(payload)-1], nil, io.ErrUnexpectedEOF)
 	d := &verifCapDisp{}
+	if verifChoice("control", 2) == 1 { // control: the same frame with the right length
+		verifPickleRegister(payload, items, nil)
+		err := verifRunPickle(bytes.NewReader(verifFrame(uint32(len(payload)), payload)), d)
+		verifAssert(verifLinesEqual(d.copies, []string{name + " 2 1"}), "valid-items-dispatched-as-name-value-timestamp")
+		verifAssert(err == nil, "clean-end-of-stream-is-no-error")
+		verifCover("end")
+		return
+	}
+	verifPickleRegister(payload[:len(payload)-1], nil, io.ErrUnexpectedEOF)
 	err := verifRunPickle(bytes.NewReader(verifFrame(uint32(len(payload)-1), payload)), d)
 	verifAssert(len(d.events) == 0, "nothing-dispatched-or-counted-from-truncated-pickle")
 	verifAssert(err != nil, "truncated-pickle-ends-connection-with-error")
@@ -592,8 +634,8 @@ func VerifC13Chunked() {
 	r := &verifCutReader{data: stream, cuts: []int{c1, c2}, endErr: io.EOF}
 	d := &verifCapDisp{}
 	err := verifRunPickle(r, d)
-	verifAssert(err == nil, "clean-end-of-stream-is-no-error")
 	verifAssert(verifLinesEqual(d.copies, []string{name + " 2 1", name + " 2 1"}), "valid-items-dispatched-as-name-value-timestamp")
+	verifAssert(err == nil, "clean-end-of-stream-is-no-error")
 	verifCover("end")
 }
 
